@@ -221,7 +221,7 @@ def canon_pair(g, m):
         ga, ma = gf.get('args', '-').split(','), mf.get('args', '-').split(',')
         if len(ga) == len(ma):
             ga = ['?' if y == '?' else x for x, y in zip(ga, ma)]
-            g = f'row={gf.get("row")} op={gf.get("op")} args={",".join(ga)}'
+            g = f'row={gf.get("row")} op={gf.get("op")} args={",".join(ga)}' + (' !' + g.split(' !', 1)[1] if ' !' in g else '')
     return g
 
 
